@@ -131,6 +131,17 @@ def check(run):
 
 
 def replay(run, path):
+    """Re-execute the behaviour embedded in the failing trace (Cfg.beh) on the current tree and re-validate it."""
     body = json.load(open(path))
-    raise vlib.InfraError("replay of reaper traces: re-run `bin/check C16` with VERIF_SEED=%s; the failing trace is embedded in %s" % (
-        body.get("seed"), path))
+    cfg = (body.get("trace") or [{}])[0]
+    if cfg.get("module") != "Reapers" or "beh" not in cfg:
+        raise vlib.InfraError("this replay holds a lifecycle-driver trace: re-run `bin/check C16` with VERIF_SEED=%s; the failing "
+                              "trace is embedded in %s" % (body.get("seed"), path))
+    beh = json.loads(cfg["beh"])
+    files = rc.record(run, [beh], prefix="replay")
+    per, counts = rc.account(files, vlib.NCPU)
+    run.note_case("replay:" + json.dumps(beh["steps"], sort_keys=True), bool(per[0]["deletes"]))
+    run.validate("Reapers_Trace", "Reapers_Trace.cfg", files, par=1)
+    run.rule = "replay of one recorded behaviour on the current tree"
+    run.samples = [{"tag": beh.get("tag"), "steps": beh["steps"]}]
+    run.extra_cov["guarded_event_counts"] = dict(counts)
